@@ -276,7 +276,8 @@ func (x *Exec) freshResult(st *State, sig *types.Signature, prefix string) (Val,
 // havocAll forgets every heap (used for callees without any contract).
 func (x *Exec) havocAll(st *State) {
 	x.ensureImmutableHeaps()
-	for name, h := range st.heaps {
+	for _, name := range sortedKeys(st.heaps) {
+		h := st.heaps[name]
 		if name == "Gf mstate" || strings.HasPrefix(name, "Hf sync.") {
 			// lock ownership is restored by every callee (it releases what it acquires);
 			// the fields of sync objects are not reassigned by callees
